@@ -14,7 +14,7 @@ from vmon.libutil import monitored, xtce_element
 
 LEVEL = "exploration"
 SHARDS = {"quick": 16, "thorough": 16}
-MUST = ["history.selfref_first", "history.evaluated_twice", "form.comparison", "form.condition-value", "form.condition-param", "form.boolexpr", "form.list", "form.lookup",
+MUST = ["end_to_end.documents", "history.selfref_first", "history.evaluated_twice", "form.comparison", "form.condition-value", "form.condition-param", "form.boolexpr", "form.list", "form.lookup",
         "route.ctor", "route.xml", "truth.true", "truth.false", "operand.falsy", "operand.int-vs-float", "spellings.all"]
 RULE = ("case = (criteria IR, assignment of (value, raw_value) to the referenced parameters, construction route); the "
         "library's evaluate() result must be the bool the model computes. Enumerated completely: all 16 operator "
@@ -189,7 +189,9 @@ def operand_cases():
                  (float("nan"), 5), (float("inf"), 6), (float("-inf"), -7), (3.0, float("nan"))):
         # not-a-number (a common "no data" fill) is unordered: only != holds; the infinities are ordinary ordered values
         out.append(("float", v, r))
-    for v, r in (("", 0), ("A", 1), ("OFF", 0), ("ON", 1), ("b", 2), ("AB  ", 3), (" A", 4)):
+    for v, r in (("", 0), ("A", 1), ("OFF", 0), ("ON", 1), ("b", 2), ("AB  ", 3), (" A", 4),
+                 ("007", 5), ("7", 6), ("+5", 7), ("-0", 8), ("1e3", 9), ("0x10", 10)):
+        # text that looks like a number is still text: "007" is not "7"
         out.append(("str", v, r))
     for v, r in ((False, 0), (True, 1), (True, 2)):
         out.append(("bool", v, r))
@@ -201,7 +203,7 @@ def literals_for(x):
         return [str(int(x)), str(int(x) + 1), str(int(x) - 1), "0"]
     if isinstance(x, float):
         return [repr(x), repr(x + 0.5), "0", "0.0", "-1", "1e10"] + (["nan", "inf", "-inf"] if (x != x or x in (1.0, 0.0) or abs(x) == float("inf")) else [])
-    return [x or "B", "A", "ON", "a", x + "  ", " " + x, "AB  "]
+    return [x or "B", "A", "ON", "a", x + "  ", " " + x, "AB  "] + (["007", "7", "+5", "5", "-0", "0", "1e3", "1000.0", "0x10", "16"] if x[:1] in "07+-1" and x else [])
 
 
 def run(ctx):
@@ -242,7 +244,7 @@ def run(ctx):
                         c = ir.Comparison("SELF", str(int(raw)) if isinstance(raw, int) else repr(raw), op, False)
                         judge(ctx, "comparison", c, B.make(c, "ctor"), packets.CCSDSPacket(), {}, "ctor",
                               (ir.OPS[op], "self", kind_of(raw), "falsy" if falsy(raw) else "truthy"), current=raw)
-    ctx.exhaustive_space("16 operator spellings x 2 selectors x 25 operand cases x literals x 2 routes", 1)
+    ctx.exhaustive_space("16 operator spellings x 2 selectors x 31 operand cases x literals x 2 routes", 1)
 
     # ---- 2. Condition parameter-vs-parameter incl. int-vs-float in both orders ------------------------------------
     pool = [("int", 0, 0), ("int", 3, 3), ("int", -1, -1), ("float", 0.0, 0), ("float", 3.0, 6), ("float", 2.5, 5),
@@ -312,6 +314,7 @@ def run(ctx):
                 route = routes[ai % 2]
                 judge(ctx, "list", lst, libs[route], pkt, env, route, ("len", n))
     lookups(ctx, comps, assigns, rng, absent)
+    end_to_end(ctx)
 
     # ---- 5. seeded random larger trees ------------------------------------------------------------------------------
     for i in range(ctx.size(3000, 2_000_000) // ctx.nshards):
@@ -322,6 +325,23 @@ def run(ctx):
         for asg in rng.sample(assigns, 6):
             pkt, env = packet_of(asg)
             judge(ctx, "boolexpr", bx, lib, pkt, env, route, ("random", min(count_leaves_ir(tree), 12)), shape="random")
+
+
+def end_to_end(ctx):
+    """the same criteria as RestrictionCriteria selecting child containers in real decoding: a three-level chain root -> K0 -> K1
+    where K0 is (a) an ordinary container, (b) an abstract grouping layer without entries of its own; all 16 steering assignments"""
+    from vmon.props import c05
+    n = 0
+    for c0 in range(len(c05.POOL)):
+        for c1 in (0, 3, len(c05.POOL) - 1):
+            for abstract0, empty in ((False, ()), (True, ()), (True, (0,))):
+                n += 1
+                if not ctx.mine(n):
+                    continue
+                doc = c05.tree_doc((-1, 0), (c0, c1), (abstract0, False), True, empty=empty)
+                before = dict(ctx.violations)
+                c05.exercise(ctx, doc, f"e2e/{c0}/{c1}/{int(abstract0)}/{'grouping-layer' if empty else 'plain'}")
+                ctx.count("end_to_end.documents")
 
 
 def lookups(ctx, comps, assigns, rng, absent):
